@@ -1,6 +1,7 @@
 // C04 harness driver (package rtmp, injected with go test -overlay, run with -race).
 //
-// A case is ((req..) (event..)) with req = (tid name fail): name 1 connect, 2 createStream, 0 a call
+// A case is ((req..) (event..)) with req = (tid name fail [pad]): pad = bytes of padding strings in the
+// command object (request size); name 1 connect, 2 createStream, 0 a call
 // that expects no response; fail=1: the transport fails from the write of this request on.
 //   event = (0 k (a..))  WritePacket(request k) on the writer goroutine; while the transport Write
 //                        that carries k is in progress the peer answers the requests a.. (each
@@ -8,6 +9,9 @@
 //                        the reader goroutine has finished DecodeMessage for each answer; only
 //                        then does the transport Write return
 //         | (1 k)        the peer answers request k now; the reader goroutine decodes it
+//         | (2 cs)       the client writes SetChunkSize(cs): its output chunk size becomes cs
+// "Handed to the transport" is decided by BYTE COUNT: the response is injected inside whichever
+// transport Write call delivers the last byte of the request's reference encoding.
 // or (9 n): n requests written back to back while a peer goroutine answers each as soon as its
 // bytes arrive and the reader goroutine decodes concurrently (no control; for the race detector).
 //
@@ -36,6 +40,7 @@ type vC04Req struct {
 	tid  int
 	name int
 	fail bool
+	pad  int // bytes of padding strings in the command object (request size)
 }
 
 type vC04Result struct {
@@ -91,21 +96,56 @@ func vC04Response(q vC04Req) []byte {
 	return append([]byte(nil), buf.Bytes()...)
 }
 
+// command object carrying n bytes of strings (an AMF0 string holds at most 65535 bytes)
+func vC04Pad(n int) *amf0.Object {
+	o := amf0.NewObject()
+	for i := 0; n > 0; i++ {
+		m := n
+		if m > 60000 {
+			m = 60000
+		}
+		o.Set(fmt.Sprintf("pad%d", i), amf0.NewString(strings.Repeat("x", m)))
+		n -= m
+	}
+	return o
+}
+
 func vC04Request(q vC04Req) Packet {
 	switch q.name {
 	case 1:
 		p := NewConnectAppPacket()
 		p.TransactionID = amf0.Number(q.tid)
+		if q.pad > 0 {
+			p.CommandObject = vC04Pad(q.pad)
+		}
 		return p
 	case 2:
 		p := NewCreateStreamPacket()
 		p.TransactionID = amf0.Number(q.tid)
+		if q.pad > 0 {
+			p.CommandObject = vC04Pad(q.pad)
+		}
 		return p
 	}
 	p := NewCallPacket()
 	p.CommandName = amf0.String("verifCall")
 	p.TransactionID = amf0.Number(q.tid)
+	if q.pad > 0 {
+		p.CommandObject = vC04Pad(q.pad)
+	}
 	return p
+}
+
+// number of bytes WritePacket(q) puts on the wire at output chunk size cs: reference encoding by a
+// separate Protocol instance
+func vC04WireLen(q vC04Req, cs uint32) int {
+	var buf vC04Buf
+	ref := NewProtocol(&buf)
+	ref.output.opt.chunkSize = cs
+	if err := ref.WritePacket(vC04Request(q), 0); err != nil {
+		panic(err)
+	}
+	return buf.Len()
 }
 
 func vC04Classify(pkt Packet, err error) vC04Result {
@@ -129,10 +169,17 @@ type vC04Fail struct{ oracle, detail string }
 func vC04ParseReqs(l vSx) ([]vC04Req, bool) {
 	var reqs []vC04Req
 	for _, x := range l.l {
-		if !x.isList() || len(x.l) != 3 || !x.l[0].isInt() || !x.l[1].isInt() || !x.l[2].isInt() {
+		if !x.isList() || (len(x.l) != 3 && len(x.l) != 4) || !x.l[0].isInt() || !x.l[1].isInt() || !x.l[2].isInt() {
 			return nil, false
 		}
-		reqs = append(reqs, vC04Req{x.l[0].int(), x.l[1].int(), x.l[2].i64() != 0})
+		pad := 0
+		if len(x.l) == 4 {
+			if !x.l[3].isInt() || x.l[3].int() < 0 || x.l[3].int() > 200000 {
+				return nil, false
+			}
+			pad = x.l[3].int()
+		}
+		reqs = append(reqs, vC04Req{x.l[0].int(), x.l[1].int(), x.l[2].i64() != 0, pad})
 	}
 	// a failed flush is sticky in bufio.Writer: the transport is dead from the first failure on
 	dead := false
@@ -208,15 +255,33 @@ func vC04Run(c vSx) (vSx, []vC04Fail, bool) {
 		return true
 	}
 	valid := true
+	dead := false // a transport failure has been injected: the bufio writer is dead
 	for _, e := range c.l[1].l {
 		if !e.isList() || len(e.l) < 2 || !e.l[0].isInt() || !e.l[1].isInt() {
 			valid = false
 			break
 		}
 		k := e.l[1].int()
+		if e.l[0].i64() == 2 && len(e.l) == 2 {
+			// the client announces a new output chunk size (and applies it to its own writer)
+			if k < 1 || k > 16777215 || dead {
+				valid = false
+				break
+			}
+			rw.onWrite = func(b []byte) error { return nil }
+			sc := NewSetChunkSize()
+			sc.ChunkSize = uint32(k)
+			if err := p.WritePacket(sc, 0); err != nil || p.output.opt.chunkSize != uint32(k) {
+				bad("write-result", fmt.Sprintf("SetChunkSize(%d): error %v, output chunk size now %d", k, err, p.output.opt.chunkSize))
+			}
+			continue
+		}
 		if k < 0 || k >= len(reqs) {
 			valid = false
 			break
+		}
+		if e.l[0].i64() == 0 && reqs[k].fail {
+			dead = true
 		}
 		switch {
 		case e.l[0].i64() == 0 && len(e.l) == 3 && e.l[2].isList():
@@ -228,16 +293,21 @@ func vC04Run(c vSx) (vSx, []vC04Fail, bool) {
 			for _, a := range e.l[2].l {
 				inside = append(inside, a.int())
 			}
-			writes := 0
+			// the request has been handed to the transport when ALL bytes of its reference
+			// encoding have arrived -- in whichever Write call that happens (bufio.Writer passes
+			// large writes through and flushes when full, so it can be before the final Flush)
+			need := vC04WireLen(reqs[k], p.output.opt.chunkSize)
+			got, complete := 0, false
 			rw.onWrite = func(b []byte) error {
-				writes++
 				if reqs[k].fail {
 					return errors.New("verif injected transport failure")
 				}
-				if writes > 1 {
+				got += len(b)
+				if complete || got < need {
 					return nil
 				}
-				sent[k] = true // the bytes of k have been handed to the transport
+				complete = true
+				sent[k] = true
 				for _, a := range inside {
 					if !answer(a, true) {
 						valid = false
@@ -258,6 +328,9 @@ func vC04Run(c vSx) (vSx, []vC04Fail, bool) {
 			}
 			if (err != nil) != reqs[k].fail {
 				bad("write-result", fmt.Sprintf("WritePacket of request %d returned %v, transport failure injected: %v", k, err, reqs[k].fail))
+			}
+			if err == nil && (got != need || !complete) {
+				bad("write-result", fmt.Sprintf("WritePacket of request %d put %d bytes on the wire, its reference encoding has %d", k, got, need))
 			}
 		case e.l[0].i64() == 1 && len(e.l) == 2:
 			if !answer(k, false) {
@@ -299,7 +372,7 @@ func vC04Free(n int) (vSx, []vC04Fail, bool) {
 	reqs := make([]vC04Req, n)
 	resp := make([][]byte, n)
 	for k := range reqs {
-		reqs[k] = vC04Req{k + 1, 1 + k%2, false}
+		reqs[k] = vC04Req{tid: k + 1, name: 1 + k%2}
 		resp[k] = vC04Response(reqs[k])
 	}
 	cur := 0
@@ -378,7 +451,11 @@ func vC04Schedule(reqs []vC04Req, slots []int, reverse bool) vSx {
 		reqs[i].fail = dead
 	}
 	for _, q := range reqs {
-		rs = append(rs, vL(vI(q.tid), vI(q.name), vBool(q.fail)))
+		if q.pad > 0 {
+			rs = append(rs, vL(vI(q.tid), vI(q.name), vBool(q.fail), vI(q.pad)))
+		} else {
+			rs = append(rs, vL(vI(q.tid), vI(q.name), vBool(q.fail)))
+		}
 	}
 	for j := 0; j < n; j++ {
 		var inside, after []vSx
@@ -480,6 +557,32 @@ func TestVerifC04(t *testing.T) {
 				break
 			}
 			slots[i]++
+		}
+	}
+	// request sizes x output chunk sizes around the bufio buffer (4096) and its multiples: the
+	// response is injected inside the Write call that completes the request
+	var pads []int
+	step := 3
+	if !k.thorough() {
+		step = 9
+	}
+	pads = append(pads, 0, 1, 100, 20000, 64000)
+	for d := 3980; d <= 4110; d += step {
+		pads = append(pads, d)
+	}
+	for d := 8070; d <= 8210; d += step {
+		pads = append(pads, d)
+	}
+	for d := 12170; d <= 12300; d += 4 * step {
+		pads = append(pads, d)
+	}
+	for _, cs := range []int{128, 4096, 8192, 16384, 60000} {
+		for i, pad := range pads {
+			reqs := []vC04Req{{tid: 1 + i%3, name: 1 + i%2, pad: pad}, {tid: 7, name: 2 - i%2, pad: (i % 4) * 2500}}
+			base := vC04Schedule(reqs, []int{1, 1 + i%2}, false)
+			evs := append([]vSx{vL(vZ(2), vI(cs))}, base.l[1].l...)
+			runOne(vL(base.l[0], vLs(evs)))
+			k.count("chunk-size", fmt.Sprint(cs))
 		}
 	}
 	// random: transport failures, packets that expect no response, larger histories
